@@ -45,6 +45,9 @@ def run(c):
         if '"C17"' in rj["what"]:
             ev = rj["event"] or {}
             c.violate("input family %s: %s" % (ev.get("family"), rj["what"][:200]), {"kind": "work-growth", "what": rj["what"][:300], "family": ev.get("family"), "n": ev.get("n")})
+    # ---- memoisation itself: every (function, position) is computed and stored once (the memo-table trace, Trace_Peg)
+    from checks import pegcommon
+    pegcommon.run(c, "C17", 400 if c.quick else 4000, with_model=False)
     # probe: an exponential-looking pair
     a = dict(evs[0])
     b = dict(a, n=a["n"] * 2, work=a["work"] * 40, computes=a["work"] * 40 - a["hits"])
